@@ -17,6 +17,10 @@ pub struct LineColIterator<I> {
     /// computation of the current line, column, and byte offset while only
     /// updating one of the counters in `next()` in the common case.
     start_of_line: usize,
+
+    /// Column reached in the previous line, just before its newline character
+    /// was read.
+    prev_col: usize,
 }
 
 impl<I> LineColIterator<I>
@@ -29,6 +33,7 @@ where
             line: 1,
             col: 0,
             start_of_line: 0,
+            prev_col: 0,
         }
     }
 
@@ -38,6 +43,10 @@ where
 
     pub fn col(&self) -> usize {
         self.col
+    }
+
+    pub fn prev_col(&self) -> usize {
+        self.prev_col
     }
 
     pub fn byte_offset(&self) -> usize {
@@ -57,6 +66,7 @@ where
             Some(Ok(b'\n')) => {
                 self.start_of_line += self.col + 1;
                 self.line += 1;
+                self.prev_col = self.col;
                 self.col = 0;
                 Some(Ok(b'\n'))
             }
